@@ -105,3 +105,28 @@ pub mod expect_late {
         LastSemi,
     }
 }
+
+// One leaf with both an unconditional ending and a look-around ending: its early and late accepting states must stay
+// distinct (an end-of-input edge may only lead into a late recorder).
+#[derive(Logos, Debug, PartialEq)]
+pub enum MixedEnding {
+    #[regex("ab?", priority = 1)]
+    Short,
+    #[regex("ab|A$", priority = 5)]
+    Long,
+}
+
+// An end-anchored token whose last byte has no other continuation: the state before the end-of-input edge has no byte
+// edges at all.
+#[derive(Logos, Debug, PartialEq)]
+#[logos(skip r"[ \t]+")]
+pub enum TrailingTilde {
+    #[regex("[a-z]+")]
+    Word,
+    #[regex("[0-9]+")]
+    Num,
+    #[token("=")]
+    Eq,
+    #[regex("~$")]
+    Tilde,
+}
